@@ -1,5 +1,5 @@
-import p_cards, p_eval
+import p_cards, p_eval, p_showdown, p_flop
 
 CHECKS = {}
-for m in (p_cards, p_eval):
+for m in (p_cards, p_eval, p_showdown, p_flop):
     CHECKS.update(m.CHECKS)
